@@ -62,7 +62,7 @@ impl Check for C04 {
         tier.pick(std::time::Duration::from_secs(200), std::time::Duration::from_secs(1500))
     }
     fn required_counters(&self, _tier: Tier) -> Vec<&'static str> {
-        vec!["path:client-paid", "path:unpaid-update", "path:replication", "raw-puts", "raw-put:oversized", "variant:victim-key", "realnet:presented:own-key", "realnet:presented:random-key"]
+        vec!["path:client-paid", "path:unpaid-update", "path:replication", "raw-puts", "raw-put:oversized", "variant:victim-key"]
     }
     fn lane_cases(&self, tier: Tier) -> u64 {
         tier.pick(6, 48)
